@@ -144,6 +144,11 @@ fn peephole_optimize(
 
   while !instructions_cursor.at_end() {
     match instructions_cursor.read_slice() {
+      #[cfg(feature = "verif")]
+      slice if crate::verif::peephole_rule_disabled(slice) => {
+        instructions_cursor.copy_cursors();
+        lines_cursor.copy_cursors();
+      },
       [SymbolicByteCode::Drop, SymbolicByteCode::Drop, ..] => {
         drop(&mut instructions_cursor, &mut lines_cursor)
       },
@@ -223,6 +228,15 @@ fn peephole_optimize(
   }
 
   (instructions_cursor.take(), lines_cursor.take())
+}
+
+/// Public entry to the optimiser for verification
+#[cfg(feature = "verif")]
+pub(crate) fn verif_peephole_optimize(
+  instructions: Vec<SymbolicByteCode>,
+  lines: Vec<u16>,
+) -> (Vec<SymbolicByteCode>, Vec<u16>) {
+  peephole_optimize(instructions, lines)
 }
 
 fn drop(instructions: &mut VecCursor<SymbolicByteCode>, lines: &mut VecCursor<u16>) {
